@@ -143,6 +143,10 @@ class SkPath(Ext):
             return (attr, self)
         if attr == "area":
             return SkArea(self)
+        if attr == "isConvex":
+            # a fact about the contours the analysis does not know: both answers are explored
+            from sa.sym import Cond
+            return it.decide(Cond("skia-convex", (repr(self.current_region()),)))
         if attr in ("contours", "segments") and self.region is None and not self.calls:
             if attr == "segments":
                 return [(n, tuple(zip(a[::2], a[1::2]))) for n, a in self.verbs]
